@@ -2,7 +2,7 @@
 plus in-graph capture_delta/apply_delta round trips)."""
 from __future__ import annotations
 import json
-from .runner import Result, Violation
+from .runner import Result, Violation, scaled
 from .gen_coll import gen_cscript, parse_dumps
 from .collmodel import SHAPES
 from .prog import Case, S
@@ -72,7 +72,7 @@ def gen_case20(rng, name):
 
 
 def generate(rng, tier, seed):
-    n = 300 if tier == "quick" else 5000
+    n = scaled(300 if tier == "quick" else 5000)
     return [gen_case20(rng, f"c20_{seed}_{k}") for k in range(n)]
 
 
